@@ -22,7 +22,7 @@ NODES = {
     "s1": ("chr1", 0),
     "s2": ("chr1", 0),
     "x1": ("hapX", 1),
-    "t1": ("chr2", 0),
+    "t1": ("chr2:1000-2000", 0),  # a region-style contig name: a Z value may hold colons
 }
 
 
